@@ -20,7 +20,6 @@ package main
 //@   requires r != nil && r.config != nil
 //@   ensures [result-or-error] (err == nil) == (result != nil)
 //@   ensures [parse-error-kind] err != nil ==> err == ErrParser
-//@   assigns foreign, external
 
 //@ func (*Runner).run [C04]
 //@   requires r != nil && r.config != nil && main != nil && r.errors >= 0 && r.errors < 1000000000
@@ -53,3 +52,62 @@ package main
 //@ extern iface resolver.Resolver.MainVCL
 //@   pure
 //@   ensures err == nil ==> result != nil
+
+// ---- C16: `fmt --write` never damages the file ---------------------------------------------------
+// Ghost file system: fileState[name] is 0 while the file holds its original bytes, 1 once it has
+// been truncated / partially written / removed, 2 when it holds exactly the formatted text.
+// tmpDone[f] is 1 when the temporary file f holds the complete formatted text and is closed.
+// The contracts on the os / io functions below are the (assumed) file-system model; every
+// file-system call is a point at which the run may stop, so the crash invariant
+// fileState[target] != 1 is asserted after each of them.
+
+//@ ghost global fileState
+//@ ghost global tmpDone
+
+//@ extern os.OpenFile
+//@   pure
+//@   ghost-effect fileState[name] = (err == nil && (flag & 512 != 0)) ? 1 : fileState[name]
+//@ extern os.Create
+//@   pure
+//@   ghost-effect fileState[name] = (err == nil) ? 1 : fileState[name]
+//@ extern os.WriteFile
+//@   pure
+//@   ghost-effect fileState[name] = 1
+//@ extern os.Remove
+//@   pure
+//@   ghost-effect fileState[name] = (err == nil && fileState[name] == 0) ? 1 : fileState[name]
+//@ extern os.Truncate
+//@   pure
+//@   ghost-effect fileState[name] = 1
+//@ extern os.CreateTemp
+//@   pure
+//@   ensures err == nil ==> result != nil && fresh(result) && fileState[result.Name()] == 3 && tmpDone[result.Name()] == 0
+//@ extern (*os.File).Name
+//@   pure
+//@ extern (*os.File).Close
+//@   pure
+//@   ghost-effect tmpDone[f.Name()] = (err == nil && tmpDone[f.Name()] == 5) ? 1 : 0
+//@ extern io.Copy
+//@   requires nonnil(src) && nonnil(dst)
+//@   pure
+//@   ghost-effect tmpDone[dst.(*os.File).Name()] = (err == nil && is(dst, *os.File)) ? 5 : 0
+//@ extern os.Chmod
+//@   pure
+//@ extern os.Stat
+//@   pure
+//@ extern os.Rename
+//@   pure
+//@   ghost-effect fileState[newpath] = (err == nil) ? (tmpDone[oldpath] == 1 ? 2 : 1) : fileState[newpath]
+
+//@ func (*Runner).Format [C16]
+//@   requires r != nil && r.config != nil && r.config.Format != nil && nonnil(rslv)
+//@   safe
+//@   aftercall [crash-invariant] OpenFile: $main != nil ==> fileState[$main.Name] != 1
+//@   aftercall [crash-invariant] Create: $main != nil ==> fileState[$main.Name] != 1
+//@   aftercall [crash-invariant] WriteFile: $main != nil ==> fileState[$main.Name] != 1
+//@   aftercall [crash-invariant] Remove: $main != nil ==> fileState[$main.Name] != 1
+//@   aftercall [crash-invariant] Rename: $main != nil ==> fileState[$main.Name] != 1
+//@   aftercall [crash-invariant] Truncate: $main != nil ==> fileState[$main.Name] != 1
+//@   ensures [unchanged-on-error] err != nil && $main != nil ==> fileState[$main.Name] == before(fileState, $main.Name)
+//@   ensures [formatted-on-success] err == nil && $main != nil && r.config.Format.Overwrite && before(fileState, $main.Name) == 0 ==> fileState[$main.Name] == 2
+//@   ensures [untouched-without-write] err == nil && $main != nil && !r.config.Format.Overwrite ==> fileState[$main.Name] == before(fileState, $main.Name)
